@@ -4,6 +4,7 @@ mod driver;
 mod gast;
 mod model;
 mod pipeline;
+mod refmodel;
 mod tape;
 
 use driver::{Ctx, DynProp, Tier, Verdict};
@@ -15,7 +16,13 @@ struct Check {
 }
 
 fn registry() -> Vec<Check> {
-    vec![Check {
+    vec![
+        Check {
+            id: "C03",
+            run: checks::c03::run,
+            props: checks::c03::props,
+        },
+        Check {
         id: "C18",
         run: checks::c18::run,
         props: checks::c18::props,
